@@ -26,6 +26,15 @@ class PathV:
     def model_eq(self, m, o):
         return isinstance(o, PathV) and o.slot == self.slot
 
+    def model_lt(self, m, o):
+        """lexicographic order of two paths: unknown to the model, one consistent symbolic Bool per pair"""
+        if o.slot == self.slot:
+            return False
+        a, b = sorted((self.slot, o.slot))
+        v = z3.Bool('path_lt_%s_%s' % (a, b))
+        m.world.path_order[(a, b)] = v
+        return v if (self.slot, o.slot) == (a, b) else z3.Not(v)
+
 
 class DirEntryV:
     __slots__ = ('slot', 'depth')
@@ -77,6 +86,8 @@ class World:
         self.stdin = None      # slot id used for stdin
         self.args = None
         self.format_calls = []  # (content, cfg fields)
+        self.path_order = {}    # (slot a, slot b) -> Bool "path a sorts before path b"
+        self.deviations = []    # structural deviations noticed by contracts
 
     def add(self, sid, **kw):
         s = Slot(kw)
@@ -134,6 +145,28 @@ def str_as_osstr(m, a, ci):
     if d == 'OsStr' or (ci.trait and 'OsStr' in ci.trait):
         return OsStrV('lit', lit=x)
     return x
+
+
+@reg('Path::is_file')
+def path_is_file(m, a, ci):
+    # follows symbolic links: a non-regular entry may be a link to a regular file
+    p = _path(m, a[0])
+    s = _w(m).slots[p.slot]
+    if 'isfile' not in s:
+        return True
+    return b_or(s['isfile'], b_and(b_not(s['isdir']), s.get('linkfile', False)))
+
+
+@reg('Path::is_dir')
+def path_is_dir(m, a, ci):
+    p = _path(m, a[0])
+    s = _w(m).slots[p.slot]
+    return s.get('isdir', False)
+
+
+@reg('Path::exists')
+def path_exists(m, a, ci):
+    return True
 
 
 @reg('OsStr::to_str')
@@ -318,6 +351,17 @@ def read_read_to_string(m, a, ci):
             raise EncoderGap('read_to_string into non-empty buffer')
         return ok(z3.BitVec('stdin_len', 64))
     return err(IoErr(('read', w.stdin)))
+
+
+@reg('Stdin::lines', 'BufRead::lines', 'StdinLock::lines')
+def stdin_lines(m, a, ci):
+    w = _w(m)
+    s = w.slots[w.stdin]
+    w.R.append(w.stdin)
+    if m.ctx.branch(s['readable']):
+        # the individual lines of opaque content: one opaque piece (what matters is that it is no longer the content itself)
+        return ListIter([ok(OStr(('lines-of', s['cur'].term)))])
+    return ListIter([err(IoErr(('read', w.stdin)))])
 
 
 @reg('stdout', 'io::stdout')
